@@ -193,6 +193,11 @@ func errorSiteSources() []source {
 		`BEGIN { sub("*", "x") }`, `BEGIN { gsub("a{2,1}", "x") }`, `BEGIN { x = "a" ~ "\\" }`, `/(/ { }`, `/[/ { }`, `/a{2,1}/`, `!/)/`,
 		`BEGIN { if (/+/) x = 1 }`, `BEGIN { x = $0 ~ /a(/ }`, `BEGIN { FS = "(" } { print $1 }`, `BEGIN { RS = "[a" } { print }`,
 		"/caf\xc3/ { print }", "BEGIN { if (!/\xff/) x = 1 }", "$0 ~ \"\xff(\"", `BEGIN { x = "a" ~ /\y/ }`,
+		// an error site reached AFTER a valid use of the same name (checks that are remembered per name, not per site)
+		`function f(x) { return x } BEGIN { print f(1); print f(1, 2) }`, `function f(x) { return x } BEGIN { print f(1, 2); print f(1) }`,
+		`function f(a) { a[1] = 1 } BEGIN { f(x); f(x, 1, 2) }`, `function f(x) { return x } function g(y) { return f(y) f(y, y, y) } BEGIN { print f(1) }`,
+		`function f(x, y) { return x } BEGIN { f(); f(1); f(1, 2); f(1, 2, 3) }`, `BEGIN { x = 1; print x; x[1] = 2 }`, `BEGIN { print length(a); a[1]; print length(a); a = 1 }`,
+		`BEGIN { print substr("a", 1); print substr("a", 1, 2, 3) }`, `BEGIN { print "a" ~ "b"; print "a" ~ "(" }`, `BEGIN { sub("a", "x"); sub("a(", "x") }`,
 		// valid neighbours (must be accepted)
 		`$1 ~ "c+" { n++ }`, `function argv(k) { return k } BEGIN { print argv(1) }`, `BEGIN { if (0) break }`,
 	}
